@@ -448,123 +448,137 @@ func Supervise(spec *PropertySpec, tier string, verifSeed uint64, budgetOverride
 	violIdx, violCount := 0, 1
 	infra := ""
 	subsDone := map[string]int64{}
-	for _, b := range batches {
-		base := WorkerArgs{Property: prop, Tier: tier, Seed: verifSeed, BudgetS: b.budget, Disabled: disabled, Sub: b.sub, RunCapS: runCap, MaxRuns: b.maxRuns}
-		outs := runWorkers(spec, base, b.workers, b.race, true)
-		for _, o := range outs {
-			if o.summary != nil {
-				agg.add(o.summary)
-				subsDone[b.sub] += o.summary.Runs
-			}
-			switch {
-			case o.violation != nil:
-				if viol == nil {
-					viol, violSub, violRace = o.violation, b.sub, o.race
-					violIdx, violCount = o.idx, b.workers
-				}
-			case o.hang != nil:
-				if spec.HangViolation {
-					if viol == nil {
-						h := o.hang
-						viol = &WorkerMsg{Type: "violation", Run: h.Run, Seed: h.Seed, Class: "hang", Detail: h.Detail}
-						violSub, violRace = b.sub, o.race
-					}
-				} else if infra == "" {
-					infra = fmt.Sprintf("worker %d watchdog: %s (seed %d)", o.idx, o.hang.Detail, o.hang.Seed)
-				}
-			case o.crash != nil:
-				if infra == "" {
-					infra = fmt.Sprintf("worker %d crashed: %s", o.idx, o.crash.Detail)
-				}
-			case o.memKilled:
-				if infra == "" {
-					infra = fmt.Sprintf("worker %d exceeded the memory cap", o.idx)
-				}
-			case o.exit == 66 && o.race:
-				// the race detector halted the worker: a data race under a deterministic schedule
-				if viol == nil {
-					ls := o.lastStart
-					if ls == nil {
-						ls = &WorkerMsg{}
-					}
-					viol = &WorkerMsg{Type: "violation", Run: ls.Run, Seed: ls.Seed, Class: "datarace", Detail: firstLines(o.stderr, 60)}
-					violSub, violRace = b.sub, true
-				}
-			case o.exit != 0 && !o.killed && o.summary == nil && spec.CrashViolation && o.haveCur && runtimeCrash(o.stderr):
-				// the Go runtime killed the worker while it was executing a run
-				if viol == nil {
-					viol = &WorkerMsg{Type: "violation", Run: o.curRun, Seed: o.curSeed, Class: "process-crash", Detail: "the process was killed by the Go runtime while executing this run:\n" + firstLines(o.stderr, 40)}
-					violSub, violRace = b.sub, o.race
-				}
-			case o.exit != 0 && !o.killed && o.summary == nil:
-				if infra == "" {
-					infra = fmt.Sprintf("worker %d exited with %d: %s", o.idx, o.exit, firstLines(o.stderr, 30))
-				}
-			}
-		}
-		if viol != nil || infra != "" {
-			break
-		}
-	}
-
 	exit := 0
 	replayPath := ""
-	if viol != nil {
-		rf := &ReplayFile{Property: prop, Engine: eng.Name(), Tier: tier, Sub: violSub, VerifSeed: verifSeed, Run: viol.Run, Seed: viol.Seed, Tape: viol.Tape, Aux: viol.Aux,
-			Race: violRace, Disabled: disabled, Violation: Violation{Class: viol.Class, Detail: viol.Detail}, Events: viol.Events, Shrunk: viol.Shrunk, OrigLen: viol.OrigLen}
-		replayPath = filepath.Join(VerifDir, "replays", fmt.Sprintf("%s-%d.json", prop, viol.Seed))
-		b, _ := json.MarshalIndent(rf, "", " ")
-		os.WriteFile(replayPath, b, 0o644)
-		// Re-execute in a fresh process; it must fail the same way.
-		code, m, msg := ReplayOnce(spec, rf)
-		switch {
-		case code == 1 && m != nil && m.Class == rf.Violation.Class:
-			if !sameEvents(m.Events, rf.Events) {
-				fmt.Printf("note: replay reproduced the violation class but its event log differs (residual nondeterminism, see DESIGN.md)\n")
-			}
-			exit = 1
-		default:
-			// retry a few times before declaring the machinery non-deterministic
-			ok := false
-			for i := 0; i < 4 && !ok; i++ {
-				code, m, msg = ReplayOnce(spec, rf)
-				ok = code == 1 && m != nil && m.Class == rf.Violation.Class
-			}
-			if !ok && viol.Run >= int64(violIdx) && violCount > 0 {
-				// the single run is clean in a fresh process: does the violation need what the earlier runs of the
-				// same worker process left behind in process-level state of the code under test?
-				rf.History = &HistoryReplay{Idx: violIdx, Count: violCount, Runs: (viol.Run-int64(violIdx))/int64(violCount) + 1}
-				for try := 0; try < 3; try++ {
-					// the pools involved (sync.Pool) are emptied by the garbage collector at moments the
-					// simulator does not control: give the sequence more than one chance
-					if code, m, msg = ReplayOnce(spec, rf); code == 1 && m != nil {
-						break
+	exploreSeed := verifSeed
+	// A violation that cannot be replayed (it depended on something the simulator does not control, e.g. when the
+	// garbage collector empties a pool inside the code under test) is not reported; the exploration is repeated
+	// with other run seeds, twice at most, before the check gives up with exit 2.
+	for attempt := 0; attempt < 3; attempt++ {
+		viol, infra, exit, replayPath = nil, "", 0, ""
+		for _, b := range batches {
+			base := WorkerArgs{Property: prop, Tier: tier, Seed: exploreSeed, BudgetS: b.budget, Disabled: disabled, Sub: b.sub, RunCapS: runCap, MaxRuns: b.maxRuns}
+			outs := runWorkers(spec, base, b.workers, b.race, true)
+			for _, o := range outs {
+				if o.summary != nil {
+					agg.add(o.summary)
+					subsDone[b.sub] += o.summary.Runs
+				}
+				switch {
+				case o.violation != nil:
+					if viol == nil {
+						viol, violSub, violRace = o.violation, b.sub, o.race
+						violIdx, violCount = o.idx, b.workers
+					}
+				case o.hang != nil:
+					if spec.HangViolation {
+						if viol == nil {
+							h := o.hang
+							viol = &WorkerMsg{Type: "violation", Run: h.Run, Seed: h.Seed, Class: "hang", Detail: h.Detail}
+							violSub, violRace = b.sub, o.race
+						}
+					} else if infra == "" {
+						infra = fmt.Sprintf("worker %d watchdog: %s (seed %d)", o.idx, o.hang.Detail, o.hang.Seed)
+					}
+				case o.crash != nil:
+					if infra == "" {
+						infra = fmt.Sprintf("worker %d crashed: %s", o.idx, o.crash.Detail)
+					}
+				case o.memKilled:
+					if infra == "" {
+						infra = fmt.Sprintf("worker %d exceeded the memory cap", o.idx)
+					}
+				case o.exit == 66 && o.race:
+					// the race detector halted the worker: a data race under a deterministic schedule
+					if viol == nil {
+						ls := o.lastStart
+						if ls == nil {
+							ls = &WorkerMsg{}
+						}
+						viol = &WorkerMsg{Type: "violation", Run: ls.Run, Seed: ls.Seed, Class: "datarace", Detail: firstLines(o.stderr, 60)}
+						violSub, violRace = b.sub, true
+					}
+				case o.exit != 0 && !o.killed && o.summary == nil && spec.CrashViolation && o.haveCur && runtimeCrash(o.stderr):
+					// the Go runtime killed the worker while it was executing a run
+					if viol == nil {
+						viol = &WorkerMsg{Type: "violation", Run: o.curRun, Seed: o.curSeed, Class: "process-crash", Detail: "the process was killed by the Go runtime while executing this run:\n" + firstLines(o.stderr, 40)}
+						violSub, violRace = b.sub, o.race
+					}
+				case o.exit != 0 && !o.killed && o.summary == nil:
+					if infra == "" {
+						infra = fmt.Sprintf("worker %d exited with %d: %s", o.idx, o.exit, firstLines(o.stderr, 30))
 					}
 				}
-				if code == 1 && m != nil {
-					ok = true
-					if m.Class != rf.Violation.Class {
-						// the sequence fails in a fresh process too, at the same or an earlier run, with another symptom
-						fmt.Printf("note: the re-executed run sequence fails with class %s (first seen: %s)\n", m.Class, rf.Violation.Class)
-						rf.Violation = Violation{Class: m.Class, Detail: m.Detail}
-						viol.Class, viol.Detail = m.Class, m.Detail
-					}
-					fmt.Printf("note: the violation does not occur when run %d is executed alone in a fresh process; it reproduces when the %d runs that worker %d/%d executed before it are executed first (state carried across runs inside the code under test); the replay file re-executes that sequence\n", viol.Run, rf.History.Runs-1, violIdx, violCount)
-					b, _ := json.MarshalIndent(rf, "", " ")
-					os.WriteFile(replayPath, b, 0o644)
-				} else {
-					rf.History = nil
-				}
 			}
-			if ok {
-				if rf.History == nil {
-					fmt.Printf("note: violation replayed only on a retry (flaky replay)\n")
-				}
-				exit = 1
-			} else {
-				infra = fmt.Sprintf("violation %q found (replay file %s) but it did not reproduce in a fresh process: %s", rf.Violation.Class, replayPath, msg)
+			if viol != nil || infra != "" {
+				break
 			}
 		}
+
+		unreproduced := false
+		if viol != nil {
+			rf := &ReplayFile{Property: prop, Engine: eng.Name(), Tier: tier, Sub: violSub, VerifSeed: exploreSeed, Run: viol.Run, Seed: viol.Seed, Tape: viol.Tape, Aux: viol.Aux,
+				Race: violRace, Disabled: disabled, Violation: Violation{Class: viol.Class, Detail: viol.Detail}, Events: viol.Events, Shrunk: viol.Shrunk, OrigLen: viol.OrigLen}
+			replayPath = filepath.Join(VerifDir, "replays", fmt.Sprintf("%s-%d.json", prop, viol.Seed))
+			b, _ := json.MarshalIndent(rf, "", " ")
+			os.WriteFile(replayPath, b, 0o644)
+			// Re-execute in a fresh process; it must fail the same way.
+			code, m, msg := ReplayOnce(spec, rf)
+			switch {
+			case code == 1 && m != nil && m.Class == rf.Violation.Class:
+				if !sameEvents(m.Events, rf.Events) {
+					fmt.Printf("note: replay reproduced the violation class but its event log differs (residual nondeterminism, see DESIGN.md)\n")
+				}
+				exit = 1
+			default:
+				// retry a few times before declaring the machinery non-deterministic
+				ok := false
+				for i := 0; i < 4 && !ok; i++ {
+					code, m, msg = ReplayOnce(spec, rf)
+					ok = code == 1 && m != nil && m.Class == rf.Violation.Class
+				}
+				if !ok && viol.Run >= int64(violIdx) && violCount > 0 {
+					// the single run is clean in a fresh process: does the violation need what the earlier runs of the
+					// same worker process left behind in process-level state of the code under test?
+					rf.History = &HistoryReplay{Idx: violIdx, Count: violCount, Runs: (viol.Run-int64(violIdx))/int64(violCount) + 1}
+					for try := 0; try < 3; try++ {
+						// the pools involved (sync.Pool) are emptied by the garbage collector at moments the
+						// simulator does not control: give the sequence more than one chance
+						if code, m, msg = ReplayOnce(spec, rf); code == 1 && m != nil {
+							break
+						}
+					}
+					if code == 1 && m != nil {
+						ok = true
+						if m.Class != rf.Violation.Class {
+							// the sequence fails in a fresh process too, at the same or an earlier run, with another symptom
+							fmt.Printf("note: the re-executed run sequence fails with class %s (first seen: %s)\n", m.Class, rf.Violation.Class)
+							rf.Violation = Violation{Class: m.Class, Detail: m.Detail}
+							viol.Class, viol.Detail = m.Class, m.Detail
+						}
+						fmt.Printf("note: the violation does not occur when run %d is executed alone in a fresh process; it reproduces when the %d runs that worker %d/%d executed before it are executed first (state carried across runs inside the code under test); the replay file re-executes that sequence\n", viol.Run, rf.History.Runs-1, violIdx, violCount)
+						b, _ := json.MarshalIndent(rf, "", " ")
+						os.WriteFile(replayPath, b, 0o644)
+					} else {
+						rf.History = nil
+					}
+				}
+				if ok {
+					if rf.History == nil {
+						fmt.Printf("note: violation replayed only on a retry (flaky replay)\n")
+					}
+					exit = 1
+				} else {
+					infra = fmt.Sprintf("violation %q found (replay file %s) but it did not reproduce in a fresh process: %s", rf.Violation.Class, replayPath, msg)
+					unreproduced = true
+				}
+			}
+		}
+		if !unreproduced || attempt == 2 {
+			break
+		}
+		fmt.Printf("note: %s; exploring again with other run seeds (attempt %d of 3)\n", infra, attempt+2)
+		exploreSeed = verifSeed + uint64(attempt+1)*1000003
 	}
 	if infra != "" && exit == 0 {
 		exit = 2
